@@ -4,7 +4,7 @@
 // All analysis (what is reachable from what, what is a violation) is Gallina code in
 // coq/Model/Flow.v; this program decides nothing.
 //
-//   gen_ssa <repo> <out.v> <ModuleName> native|wasm
+//	gen_ssa <repo> <out.v> <ModuleName> native|wasm
 package main
 
 import (
@@ -25,37 +25,38 @@ import (
 const root = "github.com/ja7ad/otp"
 
 type gen struct {
-	prog    *ssa.Program
-	fset    *token.FileSet
-	ids     map[any]int // ssa.Value / retKey / string keys -> node id
-	names   []string    // node id -> description (1-based)
-	edges   [][2]int
-	srcS    []int
-	srcU    []int
-	cmps    []cmp   // comparisons: instruction id, operand nodes
-	exts    []cmp   // calls leaving the analysed packages (not barriers): call id, argument nodes
-	ifs     []ifrec // branches: function id, block, condition node
-	cfg     [][3]int // function id, block, successor block
-	inblk   [][4]int // kind (1 cmp, 2 ext call, 3 internal call), instruction id, function id, block
-	fnIDs   map[*ssa.Function]int
-	fnNames []string
-	ours    map[*ssa.Function]bool
-	nextIns int
-	insPos  []string
-	callees [][2]int // internal call instruction id -> callee function id
-	stores  [][3]int // (function id, address node, is global) for C11/C12: writes
-	gwrites []string
-	alias    [][2]int // address / view derivation (for C11, C12)
-	paramSrc []int
-	globSrc  []int
-	poolGets [][2]int // node, function id
-	writes   [][3]int // written object node, instruction id, inside an init function 0/1
-	rets     [][3]int // function id, result node, instruction id naming it
-	puts     [][2]int // instruction id, deferred 0/1
-	implicit [][2]int // branch condition node -> phi / returned value whose choice it controls (control dependence)
-	controlled [][2]int // branch condition node, placed instruction id it controls
-	precise  map[int]bool  // nodes whose length shadow is fed by explicit rules (no fallback node -> length)
-	ourCall  map[ssa.Value]bool // calls whose callees are inside the analysed packages
+	prog       *ssa.Program
+	fset       *token.FileSet
+	ids        map[any]int // ssa.Value / retKey / string keys -> node id
+	names      []string    // node id -> description (1-based)
+	edges      [][2]int
+	srcS       []int
+	srcU       []int
+	cmps       []cmp    // comparisons: instruction id, operand nodes
+	exts       []cmp    // calls leaving the analysed packages (not barriers): call id, argument nodes
+	ifs        []ifrec  // branches: function id, block, condition node
+	cfg        [][3]int // function id, block, successor block
+	inblk      [][4]int // kind (1 cmp, 2 ext call, 3 internal call), instruction id, function id, block
+	fnIDs      map[*ssa.Function]int
+	fnNames    []string
+	fnList     []*ssa.Function
+	ours       map[*ssa.Function]bool
+	nextIns    int
+	insPos     []string
+	callees    [][2]int // internal call instruction id -> callee function id
+	stores     [][3]int // (function id, address node, is global) for C11/C12: writes
+	gwrites    []string
+	alias      [][2]int // address / view derivation (for C11, C12)
+	paramSrc   []int
+	globSrc    []int
+	poolGets   [][2]int           // node, function id
+	writes     [][3]int           // written object node, instruction id, inside an init function 0/1
+	rets       [][3]int           // function id, result node, instruction id naming it
+	puts       [][2]int           // instruction id, deferred 0/1
+	implicit   [][2]int           // branch condition node -> phi / returned value whose choice it controls (control dependence)
+	controlled [][2]int           // branch condition node, placed instruction id it controls
+	precise    map[int]bool       // nodes whose length shadow is fed by explicit rules (no fallback node -> length)
+	ourCall    map[ssa.Value]bool // calls whose callees are inside the analysed packages
 }
 type cmp struct {
 	id   int
@@ -106,6 +107,7 @@ func (g *gen) edge(from, to int) {
 		g.edges = append(g.edges, [2]int{from, to})
 	}
 }
+
 // Length shadows.  A string or slice value has a length besides its content.  L(n) stands for the length
 // (and, for memory and aggregates, the lengths of the strings and slices held there) of node n.  The length is
 // part of the value: L(n) -> n always.  Conversely the content determines the length only by default: a node
@@ -190,6 +192,7 @@ func refType(t types.Type) bool {
 	}
 	return false
 }
+
 // viewType: a value of this type may be a view of (or point to) memory
 func viewType(t types.Type) bool {
 	if b, ok := t.Underlying().(*types.Basic); ok {
@@ -421,7 +424,7 @@ func (g *gen) callCommon(fn *ssa.Function, fid int, b *ssa.BasicBlock, in ssa.In
 		}
 	} else if c.IsInvoke() {
 		name = "(" + c.Value.Type().String() + ")." + c.Method.Name()
-		for f := range g.ours {
+		for _, f := range g.fnList {
 			if f.Signature.Recv() != nil && f.Name() == c.Method.Name() && types.Identical(dropRecv(f.Signature), c.Method.Type()) {
 				callees = append(callees, f)
 			}
@@ -431,7 +434,7 @@ func (g *gen) callCommon(fn *ssa.Function, fid int, b *ssa.BasicBlock, in ssa.In
 	} else {
 		name = "dynamic " + c.Value.Type().String()
 		sig, _ := c.Value.Type().Underlying().(*types.Signature)
-		for f := range g.ours {
+		for _, f := range g.fnList {
 			if sig != nil && f.Signature.Recv() == nil && types.Identical(f.Signature, sig) {
 				callees = append(callees, f)
 			}
@@ -810,7 +813,7 @@ func (g *gen) aliasInstr(fn *ssa.Function, fid int, in ssa.Instruction) {
 		} else if !c.IsInvoke() {
 			// a function value: every function of ours with that signature
 			sig, _ := c.Value.Type().Underlying().(*types.Signature)
-			for f := range g.ours {
+			for _, f := range g.fnList {
 				if sig != nil && f.Signature.Recv() == nil && types.Identical(f.Signature, sig) {
 					for i, a := range args {
 						if i < len(f.Params) && viewType(a.Type()) {
@@ -824,7 +827,7 @@ func (g *gen) aliasInstr(fn *ssa.Function, fid int, in ssa.Instruction) {
 			}
 			return
 		} else {
-			for f := range g.ours {
+			for _, f := range g.fnList {
 				if f.Signature.Recv() != nil && f.Name() == c.Method.Name() && types.Identical(dropRecv(f.Signature), c.Method.Type()) {
 					ps := f.Params
 					for i, a := range args {
@@ -950,6 +953,7 @@ func main() {
 	for i, fn := range fns {
 		g.fnIDs[fn] = i + 1
 		g.ours[fn] = true
+		g.fnList = append(g.fnList, fn)
 		g.fnNames = append(g.fnNames, fn.String())
 	}
 	// JavaScript callbacks: the arguments JavaScript passes are caller-supplied text
